@@ -58,7 +58,9 @@ def reservedNames : List String := ["INVALID", "␚"]
 
 /-- fix D15 (`consistent`): the first reserved-name clash of the syntax part, in the order the Go code looks:
     per production: its name (`INVALID`); per body symbol: a string literal spelled like a pseudo symbol or like
-    ANY production name of the grammar (wherever that production is declared), `empty` next to other symbols -/
+    ANY production name of the grammar (wherever that production is declared) or like a token id (a lexical
+    production or a `.tokId` symbol of the syntax part), `empty` next to other symbols; before all that: a lexical
+    production called `error` or `empty` -/
 def reservedUse (g : Grammar) : Option String :=
   let heads := g.syn.map (·.head)
   g.syn.findSome? fun p =>
@@ -67,6 +69,18 @@ def reservedUse (g : Grammar) : Option String :=
       if s.kind == .strLit && (reservedNames.contains s.name || heads.contains s.name) then some s.name
       else if s.kind != .strLit && s.name == "empty" && p.body.length > 1 then some "empty"
       else none
+
+/-- token ids: every lexical production id and every `.tokId` symbol of the syntax part except the two keywords -/
+def tokenIds (g : Grammar) : List String :=
+  g.lex.map (·.id) ++
+    ((g.syn.flatMap (·.body)).filter fun s => s.kind == .tokId && s.name != "error" && s.name != "empty").map (·.name)
+
+/-- second part of the reserved-name check of `consistent` (fix D21): a lexical production called `error` or
+    `empty`; a string literal spelled like a token id (they would share one token number) -/
+def reservedTok (g : Grammar) : Option String :=
+  match g.lex.find? (fun p => p.id == "error" || p.id == "empty") with
+  | some p => some p.id
+  | none => ((g.syn.flatMap (·.body)).find? fun s => s.kind == .strLit && (tokenIds g).contains s.name).map (·.name)
 
 def regDefIds (g : Grammar) : List String := (g.lex.filter fun p => p.kind == .reg).map (·.id)
 
@@ -80,6 +94,9 @@ def semCheck (g : Grammar) (lexImports : List String := []) : Except SemErr Unit
   | some p => throw (.emptyAlt p.head)
   | none => pure ()
   match reservedUse g with
+  | some n => throw (.reserved n)
+  | none => pure ()
+  match reservedTok g with
   | some n => throw (.reserved n)
   | none => pure ()
   match (g.syn.flatMap (·.body)).find? (undefinedUse g) with
